@@ -109,6 +109,18 @@ Proof.
   exact (export_checked iu ia inu Hc R HR esm cwd Hw fuel t dir s Hd H).
 Qed.
 
+(* .. and files shared by several types: the canonical file (the file every history exporting them ends with: C05, C06) of ANY
+   set of exports of a clean environment is a module — imports united, declarations in key order, no per-case check *)
+Theorem C04_merged_clean_exports_parse :
+  forall is_upper is_alnum is_numeric R esm cwd items,
+    classes_ok is_alnum is_numeric = true ->
+    clean_envb is_upper is_alnum is_numeric R = true -> forallb cleanb cwd = true ->
+    Forall (fun i => exists fuel t dir m docs dc, cleanb dir = true /\
+              export_parts is_upper is_alnum is_numeric R esm cwd fuel t dir = Ok (m, docs, dc) /\
+              it_imports i = m /\ it_block i = docs ++ lit "export " ++ print_decl dc) items ->
+    module is_alnum is_numeric (canonical_file items).
+Proof. intros iu ia inu R esm cwd items Hc HR Hw. exact (merged_exports_parse iu ia inu Hc R HR esm cwd Hw items). Qed.
+
 (* the hypothesis is satisfiable: a generic struct with a quoted key, documentation holding a comment terminator, an
    inlined reference and an optional field, an internally tagged enum over it, a host flattening it; decl() answers for all *)
 Module C04_clean.
@@ -185,6 +197,7 @@ Print Assumptions C04_export_layout.
 Print Assumptions C04_generated_declaration_is_checked.
 Print Assumptions C04_generated_declaration_parses.
 Print Assumptions C04_generated_export_parses.
+Print Assumptions C04_merged_clean_exports_parse.
 Print Assumptions C04_printed_type_parses.
 Print Assumptions C04_printed_decl_parses.
 Print Assumptions C04_export_parses.
